@@ -85,6 +85,15 @@ def check(model, rep, rule):
       return True
     if not ops_ok(t):
       probs.append('a call does not use the overload of the node\'s operator')
+
+    def natives(x):
+      if isinstance(x, tuple) and x and x[0] == 'term':
+        return (1 if str(x[1]).startswith('native:') else 0) + sum(natives(a) for a in x[2:])
+      if isinstance(x, list):
+        return sum(natives(a) for a in x)
+      return 0
+    if natives(t):
+      probs.append('operands are left under a native operator node built by the handler')
     rep.check(not probs, rule, site,
               'a boolean operation must be folded into nested operator calls that '
               'evaluate the converted operands once each, lazily, in source order',
